@@ -483,7 +483,14 @@ static bool mi_try_new_handler(bool nothrow) {
 #else
 typedef void (*std_new_handler_t)(void);
 
-#if (defined(__GNUC__) || (defined(__clang__) && !defined(_MSC_VER)))  // exclude clang-cl, see issue #631
+#if defined(__ELF__) && (defined(__GNUC__) || defined(__clang__))
+// use a weak *reference*: a weak definition here would be found before the one in a shared libstdc++
+// (for an object in the executable, or for a preloaded library) and hide the program's new-handler.
+extern std_new_handler_t _ZSt15get_new_handlerv(void) __attribute__((weak));
+static std_new_handler_t mi_get_new_handler(void) {
+  return (_ZSt15get_new_handlerv != NULL ? _ZSt15get_new_handlerv() : NULL);
+}
+#elif (defined(__GNUC__) || (defined(__clang__) && !defined(_MSC_VER)))  // exclude clang-cl, see issue #631
 std_new_handler_t __attribute__((weak)) _ZSt15get_new_handlerv(void) {
   return NULL;
 }
